@@ -230,7 +230,11 @@ impl Check for C18 {
                         let s1 = SolidSource::from_unpremultiplied_argb(a, r, g, b);
                         let s2: SolidSource = Color::new(a, r, g, b).into();
                         l.outcome(s1.to_u32() as u64);
-                        for (name, s) in [("from_unpremultiplied_argb", s1), ("From<Color>", s2)] {
+                        let s3 = match Source::from(Color::new(a, r, g, b)) {
+                            Source::Solid(s) => s,
+                            _ => SolidSource { r: 255, g: 255, b: 255, a: 0 },
+                        };
+                        for (name, s) in [("from_unpremultiplied_argb", s1), ("From<Color>", s2), ("Source::from(Color)", s3)] {
                             if s.r > s.a || s.g > s.a || s.b > s.a || s.a != a {
                                 run.report(ai, Violation::new(format!("conversion/{}", name), format!("conv a={} r={} g={} b={}", a, r, g, b), format!("{} gives {:?}", name, s)));
                             }
@@ -246,7 +250,16 @@ impl Check for C18 {
             let m = kv(case);
             let (a, r, g, b) = (kv_i(&m, "a")? as u8, kv_i(&m, "r")? as u8, kv_i(&m, "g")? as u8, kv_i(&m, "b")? as u8);
             let s = SolidSource::from_unpremultiplied_argb(a, r, g, b);
-            return Ok(if s.r > s.a || s.g > s.a || s.b > s.a || s.a != a { Some(Violation::new("conversion/from_unpremultiplied_argb", case.to_string(), format!("{:?}", s))) } else { None });
+            let s3 = match Source::from(Color::new(a, r, g, b)) {
+                Source::Solid(s) => s,
+                _ => SolidSource { r: 255, g: 255, b: 255, a: 0 },
+            };
+            for (name, s) in [("from_unpremultiplied_argb", s), ("Source::from(Color)", s3)] {
+                if s.r > s.a || s.g > s.a || s.b > s.a || s.a != a {
+                    return Ok(Some(Violation::new(format!("conversion/{}", name), case.to_string(), format!("{:?}", s))));
+                }
+            }
+            return Ok(None);
         }
         let scene = parse_scene(case)?;
         Ok(eval(&scene).err())
